@@ -19,8 +19,10 @@ import (
 
 	"github.com/cosi-project/runtime/pkg/controller"
 	"github.com/cosi-project/runtime/pkg/controller/generic/cleanup"
+	"github.com/siderolabs/gen/optional"
 	"github.com/siderolabs/gen/xerrors"
 
+	"github.com/cosi-project/runtime/pkg/controller/generic/destroy"
 	"github.com/cosi-project/runtime/pkg/controller/generic/qtransform"
 	"github.com/cosi-project/runtime/pkg/controller/generic/transform"
 	"github.com/cosi-project/runtime/pkg/resource"
@@ -99,6 +101,7 @@ type Line struct {
 	IgnoreTd    bool   `json:"ignoreTd"`
 	IgnoreUntil bool   `json:"ignoreUntil"`
 	Cleanup     bool   `json:"cleanup"`
+	Destroyer   bool   `json:"destroyer"`
 	Ctrl        string `json:"ctrl"`
 	Kind        string `json:"kind"`
 	ID          int    `json:"id"`
@@ -281,6 +284,9 @@ type Config struct {
 	Combined    bool // cleanup.Combine of two handlers, one per group of dependents
 	IgnoreWhile bool // WithIgnoreTeardownWhile("X") instead of WithIgnoreTeardownUntil(): the same meaning while X is the only foreign finalizer
 	Concurrency uint
+	// Destroyer: destroy.Controller for the input type runs next to the controller under test (it removes unowned inputs that
+	// are tearing down without finalizers): the complete life cycle without an external party destroying anything
+	Destroyer bool
 }
 
 var Configs = []Config{
@@ -293,6 +299,8 @@ var Configs = []Config{
 	{Name: "CL", Cleanup: true},
 	{Name: "CL", Cleanup: true, Combined: true},
 	{Name: "Q", Q: true, Fin: true, IgnoreUntil: true, IgnoreWhile: true, Concurrency: 2},
+	{Name: "T", Fin: true, Destroyer: true},
+	{Name: "Q", Q: true, Fin: true, Concurrency: 2, Destroyer: true},
 }
 
 type gateT struct {
@@ -381,7 +389,7 @@ func runBehaviour(t *testing.T, tr *vh.Trace, tid string, cfg Config, beh []Cmd)
 			tr.Emit(l)
 		}
 
-		emit(Line{Ev: "reset", Fin: cfg.Fin, IgnoreTd: cfg.IgnoreTd, IgnoreUntil: cfg.IgnoreUntil, Cleanup: cfg.Cleanup, Ctrl: cfg.Name})
+		emit(Line{Ev: "reset", Fin: cfg.Fin, IgnoreTd: cfg.IgnoreTd, IgnoreUntil: cfg.IgnoreUntil, Cleanup: cfg.Cleanup, Ctrl: cfg.Name, Destroyer: cfg.Destroyer})
 
 		rec := &recorder{CoreState: namespaced.NewState(inmem.Build), emit: emit, last: map[string]Val{}}
 		st := state.WrapCore(rec)
@@ -469,6 +477,12 @@ func runBehaviour(t *testing.T, tr *vh.Trace, tid string, cfg Config, beh []Cmd)
 
 		if err != nil {
 			t.Fatal(err)
+		}
+
+		if cfg.Destroyer {
+			if err = rtm.RegisterQController(destroy.NewController[*A](optional.Some(uint(2)))); err != nil {
+				t.Fatal(err)
+			}
 		}
 
 		runDone := make(chan error, 1)
